@@ -25,6 +25,9 @@ type Finding struct {
 		Ev       []string `json:"ev,omitempty"`        // failing record kinds
 		NodeKind []string `json:"node_kind,omitempty"` // kind of the node named by the failing record
 		DetailRe string   `json:"detail_re,omitempty"` // regexp over the rejection detail
+		// AsIs: the run must additionally be a behaviour of the AS-IS token game (the recorded
+		// deviation and nothing else explains it)
+		AsIs bool `json:"as_is,omitempty"`
 	} `json:"match"`
 }
 
@@ -35,6 +38,8 @@ type Rejection struct {
 	Node     string
 	NodeKind string
 	Detail   string
+	// AsIsAccepted: the run was validated against the as-is game and accepted (nil: not examined)
+	AsIsAccepted *bool
 }
 
 func LoadFindings() ([]Finding, error) {
@@ -85,6 +90,9 @@ func MatchFinding(fs []Finding, r Rejection) *Finding {
 			ok = false
 		}
 		if len(f.Match.NodeKind) > 0 && !has(f.Match.NodeKind, r.NodeKind) {
+			ok = false
+		}
+		if ok && f.Match.AsIs && (r.AsIsAccepted == nil || !*r.AsIsAccepted) {
 			ok = false
 		}
 		if ok && f.Match.DetailRe != "" {
